@@ -1,9 +1,18 @@
 /* msg.c — H-sim harness for the message-layer properties C06 / C08 (see lean/CoapVerif/Driver/Msg.lean for the
  * line format; both sides implement the same scenario semantics and print the same canonical trace).
  *
- *   msg <sess,…> <fates|-> <ev> …      one client context, UDP client sessions, a scripted peer
- *                                      (events S: / i: / k: = explicit token / ICMP error / keepalive: the model side is
+ *   msg <sess,…> <fates|-> <ev> …      one client context, UDP (or DTLS, see below) client sessions, a scripted peer
+ *                                      (events S: / i: / k: / p: = explicit token / ICMP error / keepalive / piggy-backed
+ *                                      response, fates p / P, DTLS sessions: the model side is
  *                                      lean/CoapVerif/Model/MsgLayerX.lean)
+ *
+ * DTLS sessions (7th field of a session word = 2): the session has `proto == COAP_PROTO_DTLS`, libcoap's DTLS layer
+ * table (coap_layers_coap[COAP_PROTO_DTLS]: l_write = coap_dtls_send, l_close = coap_dtls_close) and a non-NULL
+ * `session->tls`, so every line of libcoap's own code runs as on an established DTLS session; the RECORD LAYER is the
+ * identity: the two entry points into the TLS library are replaced at link time (--wrap) - coap_dtls_send() hands the
+ * PDU to lfunc[COAP_LAYER_TLS].l_write as GnuTLS' push callback does with the record, coap_dtls_receive() hands the
+ * datagram to coap_handle_dgram() as it does with the decrypted record - and coap_dtls_free_session() /
+ * coap_dtls_get_timeout() know the dummy object.  (Sessions with the real GnuTLS: harness/dtls.c.)
  *   sq  <op> …                         raw coap_insert_node / coap_pop_next / coap_remove_from_queue /
  *                                      coap_adjust_basetime / coap_cancel_* on real coap_queue_t nodes
  *   tmo atI atF arfI arfF r            coap_calc_timeout
@@ -15,11 +24,11 @@ static coap_context_t *ctx;
 static coap_session_t *S[MAXS];
 static int nS;
 
-typedef struct { int kind; /* 0 drop 1 ack 2 rst 3 the socket write fails */ int nd; unsigned long d[4]; } fate_t;
+typedef struct { int kind; /* 0 drop 1 ack 2 rst 3 the socket write fails 4 piggy-backed response */ int nd; unsigned long d[4]; } fate_t;
 static fate_t fates[256];
 static int nfates, fate_pos;
 
-typedef struct { coap_tick_t time; unsigned seq; int s; int is_rst; int mid; } arrival_t;
+typedef struct { coap_tick_t time; unsigned seq; int s; int is_rst; int mid; int piggy; int tok; } arrival_t;
 static arrival_t pend[1024];
 static int npend;
 static unsigned arr_seq;
@@ -58,11 +67,12 @@ static int on_tx_fail(coap_session_t *session, const uint8_t *data, size_t datal
   return 1;
 }
 
-static void add_arrival(coap_tick_t t, int s, int is_rst, int mid) {
+static void add_arrival(coap_tick_t t, int s, int is_rst, int mid, int piggy, int tok) {
   int i = npend;
   if (npend >= 1024) return;
   while (i > 0 && pend[i - 1].time > t) { pend[i] = pend[i - 1]; i--; }
   pend[i].time = t; pend[i].seq = arr_seq++; pend[i].s = s; pend[i].is_rst = is_rst; pend[i].mid = mid;
+  pend[i].piggy = piggy; pend[i].tok = tok;
   npend++;
 }
 
@@ -72,8 +82,10 @@ static void on_tx(const sim_dgram_t *d) {
   if (!d->decoded) return;
   if (fate_pos < nfates) f = fates[fate_pos++]; else { f.kind = 0; f.nd = 0; }
   if (f.kind == 0) return;
-  if (f.kind == 1 && d->type != COAP_MESSAGE_CON) return;       /* a NON is not acknowledged */
-  for (int i = 0; i < f.nd; i++) add_arrival(d->t + f.d[i], d->sess, f.kind == 2, d->mid);
+  if ((f.kind == 1 || f.kind == 4) && d->type != COAP_MESSAGE_CON) return;       /* a NON is not acknowledged */
+  /* kind 4: the ACK carries the response (2.05) and the request's token (an empty message - a ping - has none) */
+  for (int i = 0; i < f.nd; i++)
+    add_arrival(d->t + f.d[i], d->sess, f.kind == 2, d->mid, f.kind == 4, d->tkl == 2 ? (d->token[0] << 8) | d->token[1] : -1);
 }
 
 static coap_response_t on_response(coap_session_t *session, const coap_pdu_t *sent, const coap_pdu_t *rcvd, const coap_mid_t mid) {
@@ -107,6 +119,7 @@ static void inject(int s, int type, int code, int mid, int tok, int with_payload
   coap_lock_unlock(ctx);
 }
 static void rx_ack(int s, int mid) { inject(s, COAP_MESSAGE_ACK, 0, mid, -1, 0); }
+static void rx_piggy(int s, int mid, int tok) { inject(s, COAP_MESSAGE_ACK, COAP_RESPONSE_CODE_CONTENT, mid, tok, 1); }
 static void rx_rst(int s, int mid) { inject(s, COAP_MESSAGE_RST, 0, mid, -1, 0); }
 
 static unsigned long long last_e;   /* time from now to the earliest deadline in the send queue at the last prepare (0: none) */
@@ -123,7 +136,7 @@ static void deliver_up_to(coap_tick_t target) {
     arrival_t a = pend[0];
     memmove(pend, pend + 1, sizeof(pend[0]) * (size_t)(--npend));
     if (a.time > sim_now) sim_now = a.time;
-    if (a.is_rst) rx_rst(a.s, a.mid); else rx_ack(a.s, a.mid);
+    if (a.piggy) rx_piggy(a.s, a.mid, a.tok); else if (a.is_rst) rx_rst(a.s, a.mid); else rx_ack(a.s, a.mid);
   }
 }
 static void advance(coap_tick_t target) {
@@ -176,7 +189,8 @@ static int parse_fate(const char *w, fate_t *f) {
   f->nd = 0;
   if (!strcmp(w, "d")) { f->kind = 0; return 1; }
   if (!strcmp(w, "x")) { f->kind = 3; return 1; }
-  if (w[0] == 'a' || w[0] == 'A') f->kind = 1; else if (w[0] == 'r' || w[0] == 'R') f->kind = 2; else return 0;
+  if (w[0] == 'a' || w[0] == 'A') f->kind = 1; else if (w[0] == 'r' || w[0] == 'R') f->kind = 2;
+  else if (w[0] == 'p' || w[0] == 'P') f->kind = 4; else return 0;
   w++;
   for (;;) {
     if (!isdigit((unsigned char)*w) || f->nd >= 4) return 0;
@@ -238,6 +252,11 @@ static int apply_ev(char *w) {
     inject(atoi(f[1]), COAP_MESSAGE_NON, COAP_RESPONSE_CODE_CONTENT, atoi(f[2]), atoi(f[3]), 1);
     return 1;
   }
+  if (!strcmp(f[0], "p") && n == 4 && allnum(f, 1, 4)) {
+    /* a piggy-backed response: ACK, code 2.05, message id, token */
+    rx_piggy(atoi(f[1]), atoi(f[2]), atoi(f[3]));
+    return 1;
+  }
   if (!strcmp(f[0], "i") && n == 2 && allnum(f, 1, 2)) {
     /* an ICMP error (ECONNREFUSED) is read from the session's socket: coap_io_do_epoll -> coap_read_session ->
      * coap_session_disconnected_lkd(COAP_NACK_ICMP_ISSUE) */
@@ -263,6 +282,38 @@ static int apply_ev(char *w) {
   return 0;
 }
 
+/* ---------------------------------------------------------------- DTLS sessions with the identity as record layer */
+static char dtls_null_env;                 /* session->tls of such a session */
+#define IS_NULL_DTLS(s) ((s)->tls == (void *)&dtls_null_env)
+ssize_t __real_coap_dtls_send(coap_session_t *s, const uint8_t *data, size_t len);
+ssize_t __wrap_coap_dtls_send(coap_session_t *s, const uint8_t *data, size_t len) {
+  if (!IS_NULL_DTLS(s)) return __real_coap_dtls_send(s, data, len);
+  return s->sock.lfunc[COAP_LAYER_TLS].l_write(s, data, len);       /* GnuTLS' push callback: the record goes down one layer */
+}
+int __real_coap_dtls_receive(coap_session_t *s, const uint8_t *data, size_t len);
+int __wrap_coap_dtls_receive(coap_session_t *s, const uint8_t *data, size_t len) {
+  if (!IS_NULL_DTLS(s)) return __real_coap_dtls_receive(s, data, len);
+  return coap_handle_dgram(s->context, s, (uint8_t *)data, len);    /* what coap_dtls_receive() does with the decrypted record */
+}
+void __real_coap_dtls_free_session(coap_session_t *s);
+void __wrap_coap_dtls_free_session(coap_session_t *s) {
+  if (!IS_NULL_DTLS(s)) __real_coap_dtls_free_session(s);           /* (coap_dtls_close() sets session->tls = NULL itself) */
+}
+coap_tick_t __real_coap_dtls_get_timeout(coap_session_t *s, coap_tick_t now);
+coap_tick_t __wrap_coap_dtls_get_timeout(coap_session_t *s, coap_tick_t now) {
+  if (!IS_NULL_DTLS(s)) return __real_coap_dtls_get_timeout(s, now);
+  return 0;                                                         /* no handshake in progress: no DTLS timer */
+}
+/* a UDP client session (ESTABLISHED at once) becomes an established DTLS session */
+static void make_dtls(coap_session_t *s) {
+  s->proto = COAP_PROTO_DTLS;
+  memcpy(s->sock.lfunc, coap_layers_coap[COAP_PROTO_DTLS], sizeof(s->sock.lfunc));
+  s->tls = &dtls_null_env;
+  coap_lock_lock(ctx, return);
+  coap_session_connected(s);               /* what the completed handshake calls: state ESTABLISHED, tls_overhead */
+  coap_lock_unlock(ctx);
+}
+
 static void do_msg(char **w, int n) {
   char *sp[MAXS], *fp[256];
   int ns, nf = 0, ok = 1;
@@ -278,21 +329,31 @@ static void do_msg(char **w, int n) {
     for (int i = 0; i < nf; i++) if (!parse_fate(fp[i], &fates[nfates++])) { printf("bad-op"); return; }
   }
   if (ns < 1) { printf("bad-op"); return; }
-  /* write failures are modelled for the base alphabet only (Model/MsgLayerW.lean), not together with S: / i: / k: */
+  /* write failures are modelled for the base alphabet only (Model/MsgLayerW.lean), not together with S: / i: / k: / p:,
+   * piggy-backed fates or DTLS sessions */
   {
-    int hasx = 0;
-    for (int i = 0; i < nfates; i++) if (fates[i].kind == 3) hasx = 1;
+    int hasx = 0, hasp = 0;
+    for (int i = 0; i < nfates; i++) { if (fates[i].kind == 3) hasx = 1; if (fates[i].kind == 4) hasp = 1; }
+    if (hasx && hasp) { printf("bad-op"); return; }
     for (int j = 2; hasx && j < n; j++)
-      if ((w[j][0] == 'S' || w[j][0] == 'i' || w[j][0] == 'k') && w[j][1] == ':') { printf("bad-op"); return; }
+      if ((w[j][0] == 'S' || w[j][0] == 'i' || w[j][0] == 'k' || w[j][0] == 'p') && w[j][1] == ':') { printf("bad-op"); return; }
+    for (int i = 0; hasx && i < ns; i++) {
+      int dots = 0;
+      for (char *c = sp[i]; *c; c++) if (*c == '.') dots++;
+      if (dots == 6 && sp[i][strlen(sp[i]) - 1] == '2') { printf("bad-op"); return; }
+    }
   }
   ctx = sim_new_context();
   coap_register_response_handler(ctx, on_response);
   coap_register_nack_handler(ctx, on_nack);
   for (int i = 0; i < ns && ok; i++) {
-    char *pf[6];
-    if (split(sp[i], '.', pf, 6) != 6 || !allnum(pf, 0, 6)) { ok = 0; break; }
+    char *pf[7];
+    int nf7 = split(sp[i], '.', pf, 7);
+    if ((nf7 != 6 && nf7 != 7) || !allnum(pf, 0, nf7)) { ok = 0; break; }
+    if (nf7 == 7 && strcmp(pf[6], "1") && strcmp(pf[6], "2")) { ok = 0; break; }
     S[nS] = sim_new_client(ctx, 40000 + i);
     if (!S[nS]) { ok = 0; break; }
+    if (nf7 == 7 && !strcmp(pf[6], "2")) make_dtls(S[nS]);
     /* parameters are stored as given: the public setters refuse integer_part == 0 / value == 0, which the
      * generator never produces, and keeping the assignment direct lets the wrap witnesses be run too */
     S[nS]->ack_timeout.integer_part = (uint16_t)atoi(pf[0]);
